@@ -128,6 +128,32 @@ def search(stop_at=1, max_len=2):
                               "failure": f"reference {rname}: direct {a1!r}, nested depth {a2!r}, plain {b!r}"})
                 if stop_at and len(fails) >= stop_at:
                     return fails, n, len(distinct)
+    # text references from another module, every name qualified with the defining module (also more than once in one expression)
+    import sys as _sys
+    import types as _types
+    modname = "c11_shapes_mod"
+    if modname not in _sys.modules:
+        m = _types.ModuleType(modname)
+        _sys.modules[modname] = m
+        exec("import dataclasses, typing\n@dataclasses.dataclass\nclass Circle:\n    r: int\n@dataclasses.dataclass\nclass Square:\n    side: int\n"
+             "ShapeId = typing.NewType('ShapeId', int)\n", m.__dict__)
+        for c_ in (m.Circle, m.Square):
+            c_.__module__ = modname
+        _sys.modules[modname] = m
+    m = _sys.modules[modname]
+    # (only references that *start* with the qualifying module are within the statement: a generic such as list[mod.X] written in a
+    #  module that has not imported `mod` is not "resolvable from the caller's module")
+    texts = [(f"{modname}.Circle", m.Circle, {"r": "1"}), (f"{modname}.Circle | {modname}.Square", m.Circle | m.Square, {"side": "2"}),
+             (f"{modname}.Square | {modname}.Circle | None", m.Square | m.Circle | None, {"r": "3"}), (f"{modname}.ShapeId", m.ShapeId, "4")]
+    for text, plain, x in texts:
+        n += 1
+        distinct.add(("text", text))
+        a, b = outcome(lambda: typelib.unmarshal(text, x)), outcome(lambda: typelib.unmarshal(plain, x))
+        if not same_outcome(a, b):
+            fails.append({"base": "text:" + text, "chain": [], "position": "reference", "input": repr(x),
+                          "failure": f"text reference {text!r}: {a!r}, the type itself gives {b!r}"})
+            if stop_at and len(fails) >= stop_at:
+                return fails, n, len(distinct)
     return fails, n, len(distinct)
 
 
